@@ -344,6 +344,10 @@ def run(pid, tier):
     return rep.finish()
 
 
+
+def replay(path):
+    return vlib.generic_replay(path, build_harness, "spkidriver")
+
 if __name__ == "__main__":
     pid = sys.argv[1] if len(sys.argv) > 1 else "C10"
     tier = sys.argv[2] if len(sys.argv) > 2 else "quick"
